@@ -1,13 +1,109 @@
-"""C02: structural clauses (see DESIGN.md section 4)."""
+"""C02 error rate: forwarding, mode table, equal-cost shortcut (G16), MER loss (G16/G8), G17."""
 from __future__ import annotations
 
+import ast
+
+from rules import enum as R_enum
 from rules import fwd as R_fwd
+from sa.astutil import call_name, kwarg, u
+from sa.defuse import ReachingDefs
+from sa.model import AnalysisError, own_calls, own_nodes
+from sa.resolve import bind_args
+from . import string_common as SC
 from .common import Ctx, plumbing
 
 
 def run(ctx: Ctx):
-    plumbing(ctx, 'S1')
-    R_fwd.g5_module_pairs(ctx.pkg, ctx.res, ctx.col, only=['error_rate', 'minimum_error_rate_loss', 'prefix_error_rates'], clause='S1')
-    ctx.col.floor('g5_pairs', ctx.col.counts.get('g5_pairs', 0), 3)
-    R_fwd.g5_delegation(ctx.pkg, ctx.res, ctx.col, ['_string::error_rate', '_string::prefix_error_rates'], {'_string_matching'}, clause='S1')
-    return dict(explanation='plumbing clauses only (work in progress)', decided=['S1'], not_decided=[])
+    col, pkg, res = ctx.col, ctx.pkg, ctx.res
+    rel = "_string.py"
+    R_fwd.g5_module_pairs(pkg, res, col, only={"error_rate", "prefix_error_rates", "minimum_error_rate_loss"}, clause="S1")
+    col.floor("g5_pairs", col.counts.get("g5_pairs", 0), 3)
+    SC.mode_table(ctx, ["error_rate", "prefix_error_rates"], "S2")
+    SC.equal_cost_shortcut(ctx, "S3")
+    SC.batch_independence(ctx, "S5")
+    # ---- S4 minimum error rate loss ---------------------------------------------------------------------
+    f = pkg.func("_string::minimum_error_rate_loss")
+    where = f"{rel}::minimum_error_rate_loss"
+    er_fn = pkg.func("_string::error_rate")
+    calls = [c for c in own_calls(f.node) if call_name(c) == "error_rate"]
+    if len(calls) != 1:
+        raise AnalysisError("minimum_error_rate_loss does not call error_rate exactly once")
+    b = bind_args(calls[0], er_fn, False)
+    got = {p.name: u(a) for p, a, _ in b.pairs}
+    want = {k: k for k in ("ref", "hyp", "eos", "include_eos", "norm", "batch_first", "ins_cost", "del_cost", "sub_cost", "warn")}
+    col.ob("G1", "S4", f"{where}::error_rate-binding", got == want, f"error_rate is called with {got}", rel, calls[0].lineno, sample=got)
+    rd = ReachingDefs(f.node)
+    # samples axis: er.view(batch_size, samples); mean over dim 1 with keepdim; softmax over dim 1
+    views = [c for c in own_calls(f.node) if isinstance(c.func, ast.Attribute) and c.func.attr == "view"
+             and [u(a) for a in c.args] == ["batch_size", "samples"]]
+    means = [c for c in own_calls(f.node) if isinstance(c.func, ast.Attribute) and c.func.attr == "mean" and c.args]
+    sms = [c for c in own_calls(f.node) if call_name(c).endswith("softmax") and len(c.args) >= 2]
+    ok = len(views) == 1 and len(means) == 1 and u(means[0].args[0]) == "1" and kwarg(means[0], "keepdim") is not None \
+        and len(sms) == 1 and u(sms[0].args[1]) == "1" and u(sms[0].args[0]) == "log_probs"
+    col.ob("G13", "S4", f"{where}::samples-axis-agreement", ok,
+           f"error rates are shaped (batch, samples) but the mean / softmax use axes "
+           f"{[u(c.args[0]) for c in means]} / {[u(c.args[1]) for c in sms]}; all must be the samples axis 1", rel, f.line,
+           sample=dict(view=[u(c) for c in views], mean=[u(c) for c in means], softmax=[u(c) for c in sms]))
+    from sa.astutil import guards_of, parent_map
+    pm = parent_map(f.node)
+    sub = [n for n in own_nodes(f.node) if isinstance(n, ast.Assign) and isinstance(n.value, ast.BinOp) and isinstance(n.value.op, ast.Sub)
+           and "mean" in u(n.value.right) and u(n.targets[0]) == u(n.value.left)]
+    col.ob("G16", "S4", f"{where}::mean-subtracted-iff-sub_avg", len(sub) == 1 and any(u(t) == "sub_avg" and pol for t, pol in guards_of(pm, sub[0])),
+           "the average error rate is not subtracted exactly when sub_avg is set", rel, f.line)
+    prod = [n for n in own_nodes(f.node) if isinstance(n, ast.Assign) and isinstance(n.value, ast.BinOp) and isinstance(n.value.op, ast.Mult)
+            and "softmax" in u(n.value)]
+    col.ob("G16", "S4", f"{where}::loss=er*softmax(log_probs)", len(prod) == 1 and u(prod[0].value.left) == "er", "the loss is not er * softmax(log_probs)", rel, f.line)
+    R_enum.g8_dispatch(pkg, res, col, f, "reduction", "S4", members=["mean", "sum", "none"], allow_else=0)
+    # the reshaping keeps ref and hyp aligned: both flattened over (batch, samples) in the same order per layout
+    plumbing(ctx, "S1")
+    return dict(
+        explanation=(
+            "Decides for C02: (S1) forwarding for ErrorRate, PrefixErrorRates, MinimumErrorRateLoss; (S2) error_rate / "
+            "prefix_error_rates run the kernel with the mistakes table; (S3) for equal costs the costs are reset to 1.0, "
+            "the mistakes table is switched off and the multiplier is applied only to distances, so a count is never "
+            "rescaled by a cost; (S4) the minimum-error-rate loss binds its options to error_rate by name, uses one "
+            "samples axis for view / mean / softmax, subtracts the mean iff sub_avg, handles every reduction; (S5) "
+            "batch independence of the kernel. NOT decided: that the mistakes table follows an optimal alignment, "
+            "the empty-reference convention values, prefix variant values."),
+        decided=["S1", "S2", "S3", "S4", "S5"],
+        not_decided=["mistakes counted along a minimum-cost alignment", "empty-reference convention", "prefix values"],
+        assumptions=["docstring tables as oracle"],
+    )
+
+
+def _mutants():
+    from selftest.mutate import Mutant as M
+    S = "_string.py"
+    return [
+        M("error-rate-no-mistakes", S, "return _string_matching(ref, hyp, eos, include_eos, batch_first, ins_cost, del_cost, sub_cost, warn, norm=norm, return_mistakes=True)",
+          "return _string_matching(ref, hyp, eos, include_eos, batch_first, ins_cost, del_cost, sub_cost, warn, norm=norm)", "kernel-mode"),
+        M("mult-always", S, "if not return_mistakes:\n            mult = ins_cost", "if True:\n            mult = ins_cost", "multiplier-only-for-distances"),
+        M("mult-after-reset", S, "if not return_mistakes:\n            mult = ins_cost\n        ins_cost = del_cost = sub_cost = 1.0", "ins_cost = del_cost = sub_cost = 1.0\n        if not return_mistakes:\n            mult = ins_cost",
+          "multiplier-read-before-reset"),
+        M("costs-not-reset", S, "ins_cost = del_cost = sub_cost = 1.0", "ins_cost = del_cost = 1.0", "costs-reset-to-1"),
+        M("mer-softmax-axis-0", S, "torch.nn.functional.softmax(log_probs, 1)", "torch.nn.functional.softmax(log_probs, 0)", "samples-axis"),
+        M("mer-mean-axis-0", S, "er = er - er.mean(1, keepdim=True)", "er = er - er.mean(0, keepdim=True)", "samples-axis"),
+        M("mer-sub-avg-always", S, "if sub_avg:\n        er = er - er.mean(1, keepdim=True)", "er = er - er.mean(1, keepdim=True)", "mean-subtracted-iff"),
+        M("mer-costs-swapped", S, "ins_cost=ins_cost, del_cost=del_cost, sub_cost=sub_cost, warn=warn).view(batch_size, samples)", "ins_cost=del_cost, del_cost=ins_cost, sub_cost=sub_cost, warn=warn).view(batch_size, samples)", "G1"),
+        M("mer-reduction-arm-lost", S, "elif reduction == 'sum':\n        loss = loss.sum()\n    elif reduction != 'none':\n        raise RuntimeError(f\"'{reduction}' is not a valid value for reduction\")\n    return loss\n\nclass MinimumErrorRateLoss",
+          "elif reduction != 'none':\n        raise RuntimeError(f\"'{reduction}' is not a valid value for reduction\")\n    return loss\n\nclass MinimumErrorRateLoss", "G8/S4"),
+        M("module-swaps-sub-avg-norm", S, "self.sub_avg, self.batch_first, self.norm", "self.norm, self.batch_first, self.sub_avg", "G"),
+        M("twin:rename-mult", S, "mult", "scale", "", -1, twin=True),
+    ]
+
+
+def selftest(ctx: Ctx):
+    from selftest.mutate import run_selftest
+    return run_selftest("C02", ctx.pkg.repo, _mutants(), floor=8)
+
+
+MANIFEST = dict(
+    level_text=(
+        "Static analysis (no execution): forwarding completeness, kernel mode table, def-use/guard rules for the "
+        "equal-cost shortcut (so that an error count is never rescaled by a cost and equals the Levenshtein count for "
+        "equal costs), axis agreement and option binding of the minimum-error-rate loss, and the batch-mixing rule. "
+        "Structural clauses of C02; that the mistakes table follows a minimum-cost alignment is value-level and not decided."),
+    level_note="Trusted: python ast; docstring tables as oracle.",
+    technique="static analysis: argument binding, guard/def-use ordering rules, axis-agreement tables, enum dispatch coverage",
+    design_ref="DESIGN.md section 4 C02",
+)
